@@ -20,13 +20,15 @@ pub enum Entry {
 }
 
 /// `budget_for_op`: 0 => the operation must cope without a new chunk (failure path), 1 => it may create chunk 2.
-pub fn step<A, St, const COHERENT: bool, const OPS: u8, const NSIZE: usize, const NALIGN: usize>(entry: Entry, budget_for_op: usize, header_size: usize)
+pub fn step<A, St, const COHERENT: bool, const OPS: u16, const NSIZE: usize, const NALIGN: usize>(entry: Entry, budget_for_op: usize, header_size: usize)
 where
     A: BaseAllocator<St::GuaranteedAllocated> + Default,
     St: BumpAllocatorSettings,
 {
     set_budget(1);
     let Ok(bump) = Bump::<A, St>::try_new() else { return };
+    // never run Drop for Bump on early-return paths (it walks the chunk list and calls the base allocator: pure cost)
+    let mut bump = core::mem::ManuallyDrop::new(bump);
     set_budget(0);
     let first_chunk = bump.stats().current_chunk().unwrap().chunk_start().as_ptr() as usize;
 
@@ -73,7 +75,7 @@ where
     // the step
     // OPS: bit k set => operation k is in this harness's symbolic choice
     let op: u8 = kani::any();
-    kani::assume(op < 7 && (OPS >> op) & 1 == 1);
+    kani::assume(op < 10 && (OPS >> op) & 1 == 1);
     // NSIZE = 0: the new layout is symbolic, L(<=16, <=16). NSIZE > 0: a concrete layout that cannot fit in the 16-byte
     // chunk, so that the chunk switch is certain and the requested chunk size is a constant (DESIGN.md 2.5/2.8)
     let split_k: usize = kani::any();
@@ -109,6 +111,17 @@ where
                         al.deallocate(b, Layout::from_size_align_unchecked(split_k, 1));
                     }
                     al.allocate(ln)
+                } else if OPS & 128 != 0 && op == 7 {
+                    // operations on A, which is NOT the newest block (B lies between it and the bump position)
+                    kani::assume(lb.size() > 0 && ln.size() <= la.size());
+                    al.shrink(a, la, ln)
+                } else if OPS & 256 != 0 && op == 8 {
+                    kani::assume(lb.size() > 0 && ln.size() >= la.size());
+                    al.grow(a, la, ln)
+                } else if OPS & 512 != 0 && op == 9 {
+                    kani::assume(lb.size() > 0);
+                    al.deallocate(a, la);
+                    al.allocate(ln)
                 } else {
                     kani::assume(false);
                     Err(AllocError)
@@ -116,15 +129,16 @@ where
             }};
         }
         match entry {
-            Entry::Bump => via!(&bump),
+            Entry::Bump => via!(&*bump),
             Entry::Scope => via!(bump.as_scope()),
-            Entry::NoDealloc => via!(WithoutDealloc(&bump)),
-            Entry::NoShrink => via!(WithoutShrink(&bump)),
+            Entry::NoDealloc => via!(WithoutDealloc(&*bump)),
+            Entry::NoShrink => via!(WithoutShrink(&*bump)),
         }
     };
     set_budget(0);
     // the part of B that is still live after the operation: all of it (allocate*), the part that was kept (split), nothing
-    let (bl_addr, bl_len) = if op < 2 {
+    let on_a = op >= 7;
+    let (bl_addr, bl_len) = if op < 2 || on_a {
         (addr(b), lb.size())
     } else if op == 6 {
         if St::UP { (addr(b), split_k) } else { (addr(b) + split_k, lb.size() - split_k) }
@@ -143,10 +157,13 @@ where
     kani::cover!(r.is_ok() && op == 4 && addr(r.unwrap().cast()) != addr(b), "[op4-unfit] shrink moved the block");
     kani::cover!(r.is_ok() && op == 5, "[op5] deallocate then allocate ok");
     kani::cover!(r.is_ok() && op == 6 && ln.size() > 0, "[op6] allocated after giving back one half of a split block");
+    kani::cover!(r.is_ok() && op == 7 && addr(r.unwrap().cast()) != addr(a), "[op7] shrink of a non-newest block to a stricter alignment moved it");
+    kani::cover!(r.is_ok() && op == 8 && ln.size() > la.size(), "[op8] grow of a non-newest block");
+    kani::cover!(r.is_ok() && op == 9 && ln.size() > 0, "[op9] allocate after deallocating a non-newest block");
     kani::cover!(r.is_ok() && bump.stats().count() == 2, "[b1] operation created a second chunk");
 
-    // C02: A is never disturbed, whatever happened
-    if la.size() > 0 {
+    // C02: A is never disturbed, whatever happened (unless A itself was handed to the operation)
+    if la.size() > 0 && !on_a {
         assert!(unsafe { w1.read(addr(a) + ia) } == va, "C02: bytes of a live block (A) changed");
     }
     // C10 after every operation (heavy oracle: only in the harnesses registered for C10)
@@ -157,7 +174,7 @@ where
     match r {
         Err(_) => {
             // C07: state intact, B still there (for ops that do not give it up before failing)
-            if op != 5 && op != 6 {
+            if op != 5 && op != 6 && op != 9 {
                 if lb.size() > 0 {
                     assert!(unsafe { w1.read(addr(b) + ib) } == vb, "C07/C02: bytes of B changed by a failed operation");
                 }
@@ -186,7 +203,20 @@ where
                 let in_first = addr(n) >= addr(first.content_start()) && addr(n) + ln.size() <= addr(first.content_end());
                 assert!(in_current || in_first, "C01: block outside the memory the arena owns");
             }
-            assert!(disjoint(addr(n), ln.size(), addr(a), la.size()), "C01: block overlaps a live block (A)");
+            if !on_a {
+                assert!(disjoint(addr(n), ln.size(), addr(a), la.size()), "C01: block overlaps a live block (A)");
+            }
+            if op == 9 {
+                // deallocating a block that is not the newest reclaims nothing: its bytes are not handed out again
+                assert!(disjoint(addr(n), ln.size(), addr(a), la.size()), "C13: deallocating a block that is not the newest made its space reusable");
+            }
+            if op == 7 || op == 8 {
+                let keep = if ln.size() < la.size() { ln.size() } else { la.size() };
+                let w = if w1.holds(addr(n)) { w1 } else { Win::of(cur) };
+                if la.size() > 0 && ia < keep {
+                    assert!(unsafe { w.read(addr(n) + ia) } == va, "C02: surviving prefix of a reallocated (non-newest) block differs from the old contents");
+                }
+            }
             if b_live {
                 assert!(disjoint(addr(n), ln.size(), bl_addr, bl_len), "C01: block overlaps a live block (B, or the part of B that was kept)");
                 if addr(b) + ib >= bl_addr && addr(b) + ib < bl_addr + bl_len {
@@ -242,6 +272,7 @@ where
                     }
                 }
                 6 => {}
+                7 | 8 | 9 => assert!(allocated_after >= allocated_before, "C13: an operation on a block that is not the newest decreased the allocated byte count"),
                 _ => {
                     if !St::DEALLOCATES || entry == Entry::NoDealloc {
                         assert!(allocated_after >= allocated_before, "C13: deallocate changed the allocated byte count although deallocation is off");
@@ -256,7 +287,6 @@ where
     if budget_for_op == 0 {
         assert!(grants() == 1, "C05: a chunk appeared without a grant");
     }
-    core::mem::forget(bump);
     kani::cover!(true, "END: harness ran to completion");
 }
 
@@ -285,7 +315,9 @@ macro_rules! step_switch_harness {
     };
 }
 
-const ALL: u8 = 0b1111111;
+const ALL: u16 = 0b1111111;
+/// the three operations on the block that is not the newest
+const ON_A: u16 = 0b1110000000;
 // budget 0: the operation has to cope inside the first chunk or fail (all six operations in one query)
 step_harness!(step_up1_bump_b0, VA, S<1, true>, Entry::Bump, 0, 32, ALL);
 step_harness!(step_down1_bump_b0, VA, S<1, false>, Entry::Bump, 0, 32, ALL);
@@ -301,11 +333,22 @@ step_harness!(step_up1_set_nodealloc_b0, VA, S<1, true, true, false, true>, Entr
 step_harness!(step_down1_set_noshrink_b0, VA, S<1, false, true, true, false>, Entry::Bump, 0, 32, ALL);
 step_harness!(step_up1_set_noshrink_b0, VA, S<1, true, true, true, false>, Entry::Bump, 0, 32, ALL);
 step_harness!(step_down4_bump_b0, VA, S<4, false>, Entry::Bump, 0, 32, ALL);
-// budget 1 and a request that cannot fit: the operation creates chunk 2 (symbolic pre-state, concrete request)
-step_switch_harness!(step_up1_switch_alloc, VA, S<1, true>, Entry::Bump, 32, 0b1100011, 24, 8);
-step_switch_harness!(step_up1_switch_grow, VA, S<1, true>, Entry::Bump, 32, 0b001100, 20, 4);
-step_switch_harness!(step_up1_switch_shrink_unfit, VA, S<1, true>, Entry::Bump, 32, 0b010000, 8, 16);
-step_switch_harness!(step_down1_switch_alloc, VA, S<1, false>, Entry::Bump, 32, 0b1100011, 24, 8);
-step_switch_harness!(step_down1_switch_grow, VA, S<1, false>, Entry::Bump, 32, 0b001100, 20, 4);
-step_switch_harness!(step_down8_switch_alloc, VA, S<8, false>, Entry::Bump, 32, 0b000011, 18, 1);
-step_switch_harness!(step_up4_switch_grow_noshrink, VA, S<4, true>, Entry::NoShrink, 32, 0b001100, 24, 2);
+step_harness!(step_up1_other_b0, VA, S<1, true>, Entry::Bump, 0, 32, ON_A);
+step_harness!(step_down1_other_b0, VA, S<1, false>, Entry::Bump, 0, 32, ON_A);
+step_harness!(step_down4_other_nodealloc_b0, VA, S<4, false>, Entry::NoDealloc, 0, 32, ON_A);
+step_harness!(step_up1_other_set_noshrink_b0, VA, S<1, true, true, true, false>, Entry::Bump, 0, 32, ON_A);
+// budget 1 and a request that cannot fit: the operation creates chunk 2 (symbolic pre-state, concrete request;
+// one operation kind per query: each slow path adds a heap object and multiplies the pointer case splits)
+step_switch_harness!(step_up1_switch_alloc, VA, S<1, true>, Entry::Bump, 32, 0b0000001, 24, 8);
+step_switch_harness!(step_up1_switch_zeroed, VA, S<1, true>, Entry::Bump, 32, 0b0000010, 24, 8);
+step_switch_harness!(step_up1_switch_dealloc_alloc, VA, S<1, true>, Entry::Bump, 32, 0b0100000, 24, 8);
+step_switch_harness!(step_up1_switch_split, VA, S<1, true>, Entry::Bump, 32, 0b1000000, 24, 8);
+step_switch_harness!(step_up1_switch_grow, VA, S<1, true>, Entry::Bump, 32, 0b0000100, 20, 4);
+step_switch_harness!(step_up1_switch_grow_zeroed, VA, S<1, true>, Entry::Bump, 32, 0b0001000, 20, 4);
+step_switch_harness!(step_up1_switch_shrink_unfit, VA, S<1, true>, Entry::Bump, 32, 0b0010000, 8, 16);
+step_switch_harness!(step_down1_switch_alloc, VA, S<1, false>, Entry::Bump, 32, 0b0000001, 24, 8);
+step_switch_harness!(step_down1_switch_zeroed, VA, S<1, false>, Entry::Bump, 32, 0b0000010, 24, 8);
+step_switch_harness!(step_down1_switch_dealloc_alloc, VA, S<1, false>, Entry::Bump, 32, 0b0100000, 24, 8);
+step_switch_harness!(step_down1_switch_grow, VA, S<1, false>, Entry::Bump, 32, 0b0000100, 20, 4);
+step_switch_harness!(step_down8_switch_alloc, VA, S<8, false>, Entry::Bump, 32, 0b0000001, 18, 1);
+step_switch_harness!(step_up4_switch_grow_noshrink, VA, S<4, true>, Entry::NoShrink, 32, 0b0000100, 24, 2);
